@@ -28,6 +28,16 @@
        The semaphore block of a thread that has never slept before is learnt at the first V the model says targets it.
    Snapshots (S lines): the cv queue is compared whenever no cv section is open, the mutex queue whenever the mutex
    spinlock is free in the model.  At the end every logged return of a wait must hold the mutex in the declared mode.
+   GENERIC waits (cv_mix MODE 5 / 6 with VRT_GENERIC / VRT_MIXLOCKS: nsync_cv_wait_with_deadline_generic with the scenario's own
+   lock routines; announced by the 4th field of the "wait <tid> <deadline> <cancellable> <generic>" note): the operation is
+   [XWaitG m]; there is no load of the mutex word (cv_mu == NULL); the callbacks' nsync_mu_unlock / lock are MuModel steps like
+   those of a native wait; wake_waiters' store on such a waiter must find it on the waker's list, never on the mutex queue
+   (label wake.store:generic).
+   RESULTS: the value a wait returns ("ret <tid> <code>" notes of cv_mix's checked waits) is compared with the model's ghost
+   outcome [w_out] of that wait (read when the re-acquisition completes, XwReacq -> XIdle): code != 0 iff w_out; the value
+   nsync_wait_n returns ("retn <tid> <r>") with what the model's cv_dequeue section did (r = 1 = count iff the record was
+   still queued; a call that made no step at all -- deadline already expired -- must return count).  Labels ret:zero /
+   ret:nonzero / retn:woken / retn:count / retn:no-step.
    Coverage labels of wake_waiters' acquiring CAS: transfer:<n> (mutex-queue members that were transferred),
    cas1:moved / cas1:nobody, and cas1:nobody+waiting-cleared when the releasing CAS that follows a CAS which transferred
    nobody clears MU_WAITING (the F15 shape, repaired code). *)
@@ -53,6 +63,9 @@ let () =
   let thread_of_blk : (string, int) Hashtbl.t = Hashtbl.create 16 in
   let removed : (int, bool) Hashtbl.t = Hashtbl.create 16 in
   let nobody : (int, bool) Hashtbl.t = Hashtbl.create 16 in
+  let next_generic : (int, bool) Hashtbl.t = Hashtbl.create 16 in  (* the thread's next cv wait goes through the generic interface *)
+  let last_out : (int, bool) Hashtbl.t = Hashtbl.create 16 in      (* w_out of the wait the thread has just completed *)
+  let last_nout : (int, bool) Hashtbl.t = Hashtbl.create 16 in     (* nsync_wait_n: the record was still queued at cv_dequeue *)
   let cv_open = ref false in
   let last_ev = ref "" in
   let fail msg = raise (Mismatch (Printf.sprintf "%s (at trace event: %s)" msg !last_ev)) in
@@ -87,10 +100,10 @@ let () =
   let stk_thread blk = if String.length blk > 3 && String.sub blk 0 3 = "stk" then (try Some (int_of_string (String.sub blk 3 (String.length blk - 3))) with _ -> None) else None in
   let blk_thread blk what =
     match stk_thread blk with
-    | Some u -> if not (MuXferModel.nrec !w (nat u) || code u = 20 || code u = 21) then fail (what ^ " on the frame of a thread that has no nsync_wait_n record in the model"); u
+    | Some u -> if not (MuXferReplay.xn_rec_of !w (nat u) || code u = 20 || code u = 21) then fail (what ^ " on the frame of a thread that has no nsync_wait_n record in the model"); u
     | None ->
       let u = (try Hashtbl.find thread_of_blk blk with Not_found -> fail (what ^ " on an unknown waiter " ^ blk)) in
-      if MuXferModel.nrec !w (nat u) then fail (what ^ " on the waiter struct of a thread whose record is an nsync_wait_n record in the model"); u in
+      if MuXferReplay.xn_rec_of !w (nat u) then fail (what ^ " on the waiter struct of a thread whose record is an nsync_wait_n record in the model"); u in
   (* compare a MuModel-style event with the trace event *)
   let cmp_mu (e : event) key ev =
     match e.kind, ev with
@@ -132,8 +145,10 @@ let () =
     cover (string_of_int key);
     if key = 504 then learn_blk t (obj_region e.obj);
     let c0 = code t in
+    let out0 = MuXferReplay.reacq_out !w (nat t) in
     let ev = thr t CGo in
     cmp_mu e key ev;
+    (match out0 with Some o when c0 = 10 && code t = 0 -> Hashtbl.replace last_out t o | _ -> ());
     if c0 = 4 && code t = 5 then cover "wait:released";
     if c0 = 22 && code t = 23 then cover "waitn:released";
     if c0 = 27 && code t = 0 then begin
@@ -159,10 +174,13 @@ let () =
     (* nsync_cv_wait_with_deadline_generic *)
     | 1101 ->
       if not (idle t) then fail "cv wait starts while the model thread is busy";
+      let gen = (try Hashtbl.find next_generic t with Not_found -> false) in
+      Hashtbl.remove next_generic t;
       (match MuXferReplay.held_of !w (nat t) with
-       | Some m -> push t (XWait m)
+       | Some m -> push t (if gen then XWaitG m else XWait m)
        | None -> fail "cv wait by a thread that does not hold the mutex in the model");
-      expect t 1 "wait.store1";
+      if gen then cover "wait:generic";
+      expect t (if gen then 28 else 1) "wait.store1";
       learn_blk t (obj_region e.obj);
       cmp_mu e key (thr t CGo)
     | 1102 -> expect t 2 "wait.load-mu"; if obj_region e.obj <> "mu0" then fail "cv wait on another mutex"; cmp_mu e key (thr t CGo)
@@ -220,7 +238,9 @@ let () =
       end
     | 1005 -> expect t 17 "wake.load5"; cmp_mu e key (thr t CGo)
     | 1006 -> expect t 18 "wake.store";
-      cover (if stk_thread (obj_region e.obj) <> None then "wake.store:waitn-record" else "wake.store:native");
+      cover (if stk_thread (obj_region e.obj) <> None then "wake.store:waitn-record"
+             else if (match (try Some (Hashtbl.find thread_of_blk (obj_region e.obj)) with Not_found -> None) with
+                      | Some u -> MuXferModel.nrec !w (nat u) | None -> false) then "wake.store:generic" else "wake.store:native");
       cmp_mu e key (thr t CGo)
     (* nsync_wait_n on the cv: cv_ready_time / cv_enqueue / cv_dequeue *)
     | 1401 -> expect t 23 "waitn.ready_time"; cmp_mu e key (thr t CGo)
@@ -240,6 +260,7 @@ let () =
           if (n = 1) <> r then fail (Printf.sprintf "cv_dequeue: model %s, implementation %s"
                                       (if n = 1 then "unlinks the record" else "finds the record taken or woken")
                                       (if r then "unlinked it" else "found it taken or woken"));
+          Hashtbl.replace last_nout t r;
           cover (if r then "dequeue:was-queued" else "dequeue:taken"))
     | 1604 -> expect t 26 "waitn.spin"; cmp_mu e key (thr t CGo)
     | _ -> fail (Printf.sprintf "cv.c site %d outside the model" key) in
@@ -334,6 +355,27 @@ let () =
             | _ ->
               if region = "mu0" && ((e.kind = "cas" && e.ok) || e.kind = "store") then fail "a write to the mutex word from code outside the model"
               else incr skipped)
+       end else if String.length line > 2 && line.[0] = 'N' then begin
+         last_ev := line;
+         (match String.split_on_char ' ' line with
+          | [_; _; "wait"; tid; _; _; gen] -> Hashtbl.replace next_generic (int_of_string tid) (gen = "1")
+          | [_; _; "ret"; tid; code] ->
+            let t = int_of_string tid and c = int_of_string code in
+            (match (try Some (Hashtbl.find last_out t) with Not_found -> None) with
+             | None -> fail "the implementation returned from a cv wait, the model has not completed one"
+             | Some o ->
+               Hashtbl.remove last_out t;
+               if (c <> 0) <> o then fail (Printf.sprintf "result of the cv wait differs: implementation returned %d, model outcome %s" c (if o then "non-zero" else "0"));
+               cover (if o then "ret:nonzero" else "ret:zero"))
+          | [_; _; "retn"; tid; code] ->
+            let t = int_of_string tid and r = int_of_string code in
+            (match (try Some (Hashtbl.find last_nout t) with Not_found -> None) with
+             | None -> if r <> 1 then fail "nsync_wait_n made no step in the model and did not return count"; cover "retn:no-step"
+             | Some q ->
+               Hashtbl.remove last_nout t;
+               if (r = 1) <> q then fail (Printf.sprintf "result of nsync_wait_n differs: implementation returned %d, model %s" r (if q then "found the record still queued" else "found it taken"));
+               cover (if q then "retn:count" else "retn:woken"))
+          | _ -> ())
        end else if String.length line > 2 && line.[0] = 'S' && !steps > 0 then begin
          match String.split_on_char ' ' line with
          | _ :: "CVQ" :: rest ->
